@@ -318,7 +318,7 @@ def C17(tier, seed):
         "exhaustive": True,
         "rule": "relations over the recorded table (n, k) -> interval: for every n <= 40 (130) and confidence, consecutive k (monotone), "
                 "k vs n-k within two-sided rows and between upper and lower rows (mirror, 2^-50), midpoint between k/n and 1/2; "
-                "multipliers m in {1,2,3,10,100} (strictly narrower two-sided intervals, one-sided bound moves towards k/n); all 17 levels "
+                "multipliers m in {1,2,3,10,100} (strictly narrower two-sided intervals, one-sided bound moves towards k/n); all 19 levels "
                 "ascending (nested, strictly wider two-sided). Wilson and Wald.",
         "assumptions": NUM_TRUST,
     }
@@ -449,10 +449,10 @@ def C06(tier, seed):
                                   levels="all")],
         "exhaustive": True,
         "rule": "symmetric probe samples (+-1, exact standard error 1/sqrt(n-1)) for 150 (all 430) degrees-of-freedom rows of the reference table "
-                "(every integer 1..120 (300), log-spaced up to 99 999) and n beyond the switch x all 17 levels x 3 kinds: the implied critical value "
+                "(every integer 1..120 (300), log-spaced up to 99 999) and n beyond the switch x all 19 levels x 3 kinds: the implied critical value "
                 "must lie in the certified enclosure of the true t / normal quantile (relative allowance 2^-29 .. 2^-12 by nu); 12 designed unpaired "
                 "pairs with non-integer effective dof against the t quantile at that real dof, executed back to back on one thread. The z implied by "
-                "proportion intervals is decided by the root enclosure of C02 (same validator, all 17 levels).",
+                "proportion intervals is decided by the root enclosure of C02 (same validator, all 19 levels).",
         "assumptions": NUM_TRUST + ["quantiles are checked at the tabulated (nu, level) pairs only"],
     }
 
@@ -468,7 +468,7 @@ def C04(tier, seed):
     return {
         "stages": [st, designed],
         "exhaustive": False,
-        "rule": "12 designed sample pairs with non-integer effective dof (1.9 .. 20.2; neighbours share the integer part) x 17 levels x 3 kinds, each "
+        "rule": "12 designed sample pairs with non-integer effective dof (1.9 .. 20.2; neighbours share the integer part) x 19 levels x 3 kinds, each "
                 "also exchanged, executed back to back on one thread and judged against the t quantile at that REAL dof (table rows generated for "
                 "the exact rational dof, which TLC re-derives from the samples); "
                 "30 (300) seeded paired samples (n 2..150, explicit aligned sequences) through 3 (4) feeding styles, unequal lengths in both directions; "
@@ -514,12 +514,16 @@ def C10(tier, seed):
                    + ["C10.producer." + p for p in producers] + ["C10.one_two." + p for p in producers],
                    6 if tier == "quick" else 60)
     st.mc = [("MC_Tables", "MC_Tables.cfg", {}, 1)]
+    seq = rel_stage("c10seq", ["C10.kind", "C10.nesting", "C10.one_sided_equals_two_sided", "C10.contains_estimate"], 2 if tier == "quick" else 12, shards=1)
+    seq.harness_env = {"HARNESS_THREADS": 1}
     return {
-        "stages": [st],
+        "stages": [st, seq],
         "exhaustive": False,
-        "rule": "for each of the seven producers (arithmetic, geometric, harmonic incl. samples whose reciprocal-space interval reaches 0, paired, "
+        "rule": "the same groups in the other loop order (level outside, kind inside) executed back to back on one thread, so that consecutive calls "
+                "share level and degrees of freedom and differ in the kind only; "
+                "for each of the seven producers (arithmetic, geometric, harmonic incl. samples whose reciprocal-space interval reaches 0, paired, "
                 "unpaired, proportion Wilson + Wald, quantile ranks) and each input (6 (60) seeded samples x f32/f64; (n,k) grids; n in 4..40 (60) x 4 "
-                "quantiles): one group of 51 calls (3 kinds x 17 levels). The validator carries the table (kind, level) -> bounds and checks on every call: "
+                "quantiles): one group of 51 calls (3 kinds x 19 levels). The validator carries the table (kind, level) -> bounds and checks on every call: "
                 "kind of the result, nesting with the previous level, one-sided(L) = two-sided(2L-1) (2^-30 relative; exact for ranks), estimate inside.",
         "assumptions": TLC_TRUST + ["quantile bracketing of the sample-quantile rank is decided by C03"],
     }
@@ -554,7 +558,9 @@ def C08(tier, seed):
                     env={"PART": "streams"},
                     required=["C08.error_bound", "C08.long_stream.f32", "C08.long_stream.f64", "C08.merge_tree",
                               "C08.statistics_inherit", "C08.statistics.f32", "C08.statistics.f64", "C08.act.add_block", "C08.act.add_cycle",
-                              "C08.long_lfold.f32", "C08.long_rfold.f32", "C08.long_lfold.f64", "C08.long_rfold.f64"])
+                              "C08.long_lfold.f32", "C08.long_rfold.f32", "C08.long_lfold.f64", "C08.long_rfold.f64",
+                              "C08.long_lfold_plus.f32", "C08.long_rfold_plus.f32", "C08.long_lfold_plus.f64", "C08.long_rfold_plus.f64",
+                              "C08.negative_sum_stream", "C08.tiny_magnitude_stream.f32", "C08.tiny_magnitude_stream.f64"])
     return {
         "stages": [bfs, streams],
         "exhaustive": True,
